@@ -83,6 +83,27 @@ pub mod alloc {
         }
     }
 
+    static CLEAR_OBSERVER: std::sync::atomic::AtomicUsize =
+        std::sync::atomic::AtomicUsize::new(0);
+
+    /// Installs a function that is called whenever a thread's tally is
+    /// cleared (on the clearing thread).
+    pub fn set_clear_observer(observer: Option<fn()>) {
+        CLEAR_OBSERVER.store(
+            observer.map(|f| f as usize).unwrap_or(0),
+            std::sync::atomic::Ordering::SeqCst,
+        );
+    }
+
+    pub(crate) fn notify_clear() {
+        let addr = CLEAR_OBSERVER.load(std::sync::atomic::Ordering::SeqCst);
+        if addr != 0 {
+            // SAFETY: Only `set_clear_observer` stores into `CLEAR_OBSERVER`.
+            let observer: fn() = unsafe { std::mem::transmute(addr) };
+            observer();
+        }
+    }
+
     /// Sets the process-wide flag that makes the sample loop ignore tallies.
     pub fn set_ignore_alloc(ignore: bool) {
         crate::alloc::IGNORE_ALLOC.set(ignore);
